@@ -113,3 +113,43 @@ func ZZC12Nil(script, varspec string) {
 	}
 	zzvrt.Reach("c12-nil-end")
 }
+
+// ZZC02AccountText: an account variable receives arbitrary text (n symbolic
+// bytes, or a given text); whenever execution succeeds every posting names real
+// accounts: never the empty name, never the internal kept marker.
+func ZZC02AccountText(role, nbytes, fixed string) {
+	var text string
+	if fixed != "" {
+		text = fixed
+	} else {
+		n := int(zzAtoi(nbytes))
+		bs := make([]byte, n)
+		for i := 0; i < n; i++ {
+			bs[i] = zzvrt.Byte("ch" + zzItoa(i))
+		}
+		text = string(bs)
+	}
+	script := "vars {\n  account $x\n}\nsend [USD 5] (\n  source = @world\n  destination = $x\n)"
+	if role == "source" {
+		script = "vars {\n  account $x\n}\nsend [USD 5] (\n  source = $x allowing unbounded overdraft\n  destination = @d\n)"
+	}
+	if role == "kept-mix" {
+		script = "vars {\n  account $x\n}\nsend [USD 5] (\n  source = @world\n  destination = { max [USD 2] to $x remaining to @d }\n)"
+	}
+	pr := Parse(script)
+	res, err := pr.Run(context.Background(), VariablesMap{"x": text}, StaticStore{})
+	zzvrt.Note("result=" + zzErrClass(err))
+	if err != nil {
+		zzvrt.Assert(zzZeroResult(res), "C02:atomic-failure")
+		zzvrt.Reach("c02-account-text-rejected")
+		return
+	}
+	total := 0
+	for _, p := range res.Postings {
+		zzvrt.Assert(p.Source != "" && p.Destination != "", "C02:real-accounts")
+		zzvrt.Assert(p.Source != "<kept>" && p.Destination != "<kept>", "C02:real-accounts")
+		total++
+	}
+	zzvrt.Assert(total >= 1, "C02:five-units-are-posted")
+	zzvrt.Reach("c02-account-text-end")
+}
